@@ -451,7 +451,8 @@ class Sess:
         script packet in front of them; with glue='group' consecutive probes form one chunk."""
         self.feed_mini()
         if len(self.rx) > self._step_mark:          # sent on the application's initiative since the last step
-            self.steps.append({'chunk': [], 'outs': self._outs_since(self._step_mark), 'closed': self.ep_closed})
+            self.steps.append({'chunk': [], 'outs': self._outs_since(self._step_mark), 'closed': self.ep_closed,
+                               'ev': []})
             self._step_mark = len(self.rx)
         q = self.mini.pkts
         chunk = [q.popleft()]
@@ -470,7 +471,8 @@ class Sess:
         self.feed_mini()
         self.steps.append({'chunk': [{'probe': c['probe'], 'payload': c['payload'], 'seq': c['seq'],
                                       'pidx': c.get('pidx')} for c in chunk],
-                           'outs': self._outs_since(mark_rx), 'closed': self.ep_closed})
+                           'outs': self._outs_since(mark_rx), 'closed': self.ep_closed,
+                           'ev': list(self.ev[mark_ev:])})
         self._step_mark = len(self.rx)
         if has_probe:
             self.reactions.append({'step': self.step, 'seqs': [c['seq'] for c in chunk if c['probe']],
@@ -941,6 +943,9 @@ async def _batch(jobs):
                                       'step': rc['step'], 'seqs': rc['seqs']}) if rc else None
             res['ev'] = _canon(tr['ev'])
         if job.get('steps'):
+            res['brief'] = [{'chunk': [(c['payload'][0] if c['payload'] else -1, bool(c['probe'])) for c in st['chunk']],
+                             'outs': [o[0] for o in st['outs']], 'ev': _canon(st['ev']), 'closed': st['closed']}
+                            for st in tr['steps']]
             res['coq_steps'] = coq_steps(tr, job.get('mal', ()))
             res['nsteps'] = len(tr['steps'])
             res['ev'] = _canon(tr['ev'])
